@@ -423,6 +423,9 @@ def k_exe_layout(run, case):
         for i in range(k):
             r = make_result(rng, STAT_KEYS, ["error_array"], {"error_array": 12}, int(rng.integers(2**31)), "est_%d.txt" % i)
             name = "res_%d.zip" % i
+            if case.get("odd_names") and i == 1:
+                # names that look like something else to a launcher: ROS remappings, options, assignments
+                name = ["run:=2.zip", "__name:=res.zip", "a=b.zip", "res@host:1.zip"][int(rng.integers(4))]
             file_interface.save_res_file(os.path.join(work, name), r)
             names.append(name)
         opts = [["--use_filenames"], ["--use_filenames", "--ignore_title"], ["--use_filenames", "-v"],
@@ -488,7 +491,8 @@ def main(run):
         k_same_process(run, run.case("same_process", i, first=i % 3))
     for i in run.mine({"quick": 12, "thorough": 120}[run.tier]):
         k_exe_layout(run, run.case("exe_layout", i, layout=["between", "before", "between", "after"][i % 4],
-                                   target="stdout" if i % 4 in (1, 3) and i % 8 >= 4 else "eq" if i % 4 in (1, 3) else None))
+                                   target="stdout" if i % 4 in (1, 3) and i % 8 >= 4 else "eq" if i % 4 in (1, 3) else None,
+                                   odd_names=(i % 2 == 1)))
     run.need("evo_res executable: a row for every file on the command line", "merged statistic == arithmetic mean", "equal lengths: element-wise mean",
              "unequal lengths: concatenation in input order", "results with different keys refused",
              "single result returned unchanged", "info of the first result kept",
